@@ -17,6 +17,7 @@ OBLIGATIONS = [NS + t for t in [
     "scale_output_spec", "scale_eq_def", "scale_none_of_bad_group",
     "scale_assignment_independent", "scale_batch_independent",
     "grads_eq_def", "grads_batch_independent",
+    "sumReduce_eq_reduce_model", "sumReduce_total", "sumReduce_schedule_total",
 ]]
 TRUSTED = [
     "Lean 4.33.0 kernel; Mathlib modules Algebra.Order.Field.Basic, Tactic.Ring/Linarith/FieldSimp (Proofs/Objective.lean, Props/C09.lean)",
@@ -146,20 +147,45 @@ def random_case(rng, tier):
     groups = rng.range(1, 6)
     unass = rng.choice([0, 30, 30, 60, 100])
     allv = [(t, bt, c) for t in THREADS for bt in batches(n) for c in (0, 1)]
+    # two more pool sizes of 4..15 (every pool size 1..16 occurs across a run), small batches so that every worker gets chunks
+    extra = [(t, rng.choice([1, 1, 2, 7]), rng.below(2)) for t in rng.shuffle(list(range(4, 16)))[:2]]
     if tier == "thorough":
-        variants = allv
+        variants = allv + extra
     else:
         variants = [(1, n, 0)]
         par = [v for v in allv if v[0] >= 2 and v[1] < n]
         if par:
             variants.append(rng.choice(par))
+        variants += extra
         rest = rng.shuffle([v for v in allv if v not in variants])
         variants += rest[:10 - len(variants)]
     return make_op(kind, seed, N, feats, tkind, tdim, miss, loss, l1, l2, scaling, a, b, smode, pmag, groups, unass, variants)
 
 
+def gen_reduce(rng, tier):
+    """`reduce sum <samples> <W> <D> <K> {<worker> <v_1 … v_D>}*K`: nano::sum_reduce on W real accumulators for an explicit
+    schedule: every W in 1..33 with every worker holding contributions (integers: every summation order is exact), plus random ones"""
+    ops = []
+    for W in range(1, 34):
+        for rep in range(1 if tier == "quick" else 4):
+            D = 2 + (W + rep) % 4
+            K = W + rng.range(0, W)
+            workers = list(range(W)) + [rng.below(W) for _ in range(K - W)]
+            workers = rng.shuffle(workers)
+            items = [f"{w} " + " ".join(f2h(float(rng.range(-1000, 1000) + (2 ** (k % 20) if d == 0 else 0))) for d in range(D))
+                     for k, w in enumerate(workers)]
+            ops.append(f"reduce sum {2 ** rng.range(0, 6)} {W} {D} {K} " + " ".join(items))
+    for _ in range(60 if tier == "quick" else 600):
+        W = rng.range(1, 40); K = rng.range(0, 3 * W); D = rng.range(2, 6)
+        scale = rng.choice([1.0, 1e-3, 1e6])
+        items = [f"{rng.below(W)} " + " ".join(f2h(rng.uniform(-1.0, 1.0) * scale) for _ in range(D)) for _ in range(K)]
+        ops.append(f"reduce sum {rng.range(1, 1000)} {W} {D} {K} " + " ".join(items).strip())
+    return [o.strip() for o in ops]
+
+
 def gen(rng, tier):
     ops = corpus()
+    ops += gen_reduce(rng, tier)
     # every loss at least once per kind family, small fixed shapes (boundary: n-1, n, n+1 around tiny n)
     k = 0
     for loss in REG_LOSSES + S_LOSSES + M_LOSSES:
@@ -181,6 +207,9 @@ def gen(rng, tier):
 
 
 def nontrivial(op):
+    if op.startswith("reduce "):
+        t = op.split()
+        return int(t[3]) >= 2 and int(t[5]) >= 2
     try:
         d, _ = parse_op(op)
     except Exception:
@@ -192,6 +221,11 @@ def nontrivial(op):
 def distribution(ops):
     d = {}
     for op in ops:
+        if op.startswith("reduce "):
+            W = int(op.split()[3])
+            for k in ["reduce-sum", "reduce-sum:workers" + ("1" if W == 1 else "2-3" if W < 4 else "4-8" if W < 9 else "9-16" if W < 17 else "17+")]:
+                d[k] = d.get(k, 0) + 1
+            continue
         try:
             o, _ = parse_op(op)
         except Exception:
@@ -454,7 +488,36 @@ def within(a, b, scale):
     return abs(a - b) <= RTOL * max(scale, abs(a), abs(b)) if scale == scale else False
 
 
+def reduce_ref(op):
+    """(plain sums / samples, magnitude scale) per component of a `reduce sum` op — python's exact fsum, no schedule involved"""
+    r = Toks(op); r.s(); r.s()
+    n, W, D, K = r.int(), r.int(), r.int(), r.int()
+    cols = [[] for _ in range(D)]
+    for _ in range(K):
+        r.int()
+        for d in range(D):
+            cols[d].append(r.f())
+    return [(math.fsum(c) / n, math.fsum(abs(v) for v in c) / n) for c in cols]
+
+
+def oracle_reduce(op, res):
+    a = Toks(res)
+    if a.s() != "ok":
+        return f"[reduce] implementation did not answer ok: {res[:120]}"
+    got = a.fs()
+    ref = reduce_ref(op)
+    if len(got) != len(ref):
+        return "[reduce] wrong size"
+    for d, (g, (want, mag)) in enumerate(zip(got, ref)):
+        if not abs(g - want) <= 1e-12 * mag + 5e-324:
+            return (f"[reduce] sum_reduce over {op.split()[3]} accumulators: component {d}: reduced value {g!r} differs from "
+                    f"(the sum of all contributions) / samples = {want!r}")
+    return None
+
+
 def oracle(aug, res):
+    if aug.startswith("reduce "):
+        return oracle_reduce(aug, res)
     impl = parse_impl(res)
     if impl is None:
         return f"[no-answer] implementation did not answer ok: {res[:120]}"
@@ -498,6 +561,16 @@ def oracle(aug, res):
 
 def compare(aug, impl_line, model_line):
     """implementation vs the Lean model (modelled computation per configuration, then the naive definition at Float)"""
+    if aug.startswith("reduce "):
+        a, m = Toks(impl_line), Toks(model_line)
+        try:
+            if a.s() != "ok" or m.s() != "ok":
+                return False
+            ga, gm = a.fs(), m.fs()
+            ref = reduce_ref(aug)
+        except (ValueError, IndexError):
+            return False
+        return len(ga) == len(gm) == len(ref) and all(abs(x - y) <= 1e-12 * mag + 5e-324 for x, y, (_, mag) in zip(ga, gm, ref))
     impl = parse_impl(impl_line)
     if impl is None:
         return False
@@ -540,6 +613,8 @@ def classify(op, kind, detail):
 
 
 def shrink_candidates(op):
+    if op.startswith("reduce "):
+        return
     try:
         d, _ = parse_op(op)
     except Exception:
